@@ -306,6 +306,18 @@ func (r *cRun) teardown() {
 		}
 	}
 	synctest.Wait()
+	// C14: the channel has ended and every RPC context is done: nothing may be left
+	g := census()
+	tbl := ""
+	if r.have {
+		ids, _, _, _ := r.ch.State()
+		var a []string
+		for _, id := range ids {
+			a = append(a, strconv.FormatInt(id, 10))
+		}
+		tbl = strings.Join(a, ",")
+	}
+	r.ops.add("c.teardown", fmt.Sprintf("left=%d,%d,%d table=[%s]", g.loops, g.cwatchers, g.ctrans, tbl))
 }
 
 // raw server frames
@@ -445,7 +457,9 @@ func (r *cRun) invoke(n int, timeout time.Duration) *crpc {
 			case strings.Contains(err.Error(), "channel is closed") || strings.Contains(err.Error(), "stream IDs exhausted"):
 				r.done(0, "invoke", fmtRes(err))
 			default:
-				r.done(sid, "invoke", fmtCarrier(err))
+				// io.EOF is what Invoke returns both when the stream ended OK without a response and when the
+				// carrier refused the request: one token for both (the model driver does the same)
+				r.done(sid, "invoke", fmtRes(err))
 			}
 		}()
 	})
